@@ -52,7 +52,9 @@ type defsMemObs struct {
 	nsdt   int
 }
 
-func defsMem(d *document.Document) defsMemObs {
+// defsMem projects the in-memory document. A plain save does not touch the body, so the body part of
+// the previous projection (prev) is reused for it; the registry is always read afresh.
+func defsMem(d *document.Document, prev *defsMemObs) defsMemObs {
 	o := defsMemObs{reg: []string{}, ver: []map[string]interface{}{}, mrefs: []string{}, mnums: []int{}, mnotes: []map[string]interface{}{}}
 	if d == nil {
 		return o
@@ -67,7 +69,9 @@ func defsMem(d *document.Document) defsMemObs {
 			}
 		}
 	}
-	if d.Body != nil {
+	if prev != nil {
+		o.mrefs, o.mnums, o.mnotes, o.nsdt = prev.mrefs, prev.mnums, prev.mnotes, prev.nsdt
+	} else if d.Body != nil {
 		for _, el := range d.Body.Elements {
 			if _, ok := el.(*document.SDT); ok {
 				o.nsdt++
@@ -274,6 +278,7 @@ func runDefsVariant(c Case, emit Emitter, everyStep bool) {
 		variant = "B"
 	}
 	emit(Ev{"ev": "reset", "case": c.ID, "var": variant})
+	var last *defsMemObs
 	step := func(i int, op Op) {
 		pkg := defsEmptyPkg()
 		saved := false
@@ -309,11 +314,16 @@ func runDefsVariant(c Case, emit Emitter, everyStep bool) {
 			return runDefsStep(&doc, op, i)
 		})
 		var m defsMemObs
-		if _, p2 := guard(func() string { m = defsMem(doc); return "" }); p2 != "" {
-			m = defsMem(nil)
+		prev := last
+		if op.Name() != "Save" {
+			prev = nil
+		}
+		if _, p2 := guard(func() string { m = defsMem(doc, prev); return "" }); p2 != "" {
+			m = defsMem(nil, nil)
 			pmsg += " | projection: " + p2
 			ret = "panic"
 		}
+		last = &m
 		emit(Ev{"ev": "step", "case": c.ID, "i": i, "op": op, "ret": ret, "pmsg": pmsg, "saved": saved,
 			"reg": m.reg, "ver": m.ver, "mrefs": m.mrefs, "mnums": m.mnums, "mnotes": m.mnotes, "nsdt": m.nsdt, "pkg": pkg})
 	}
